@@ -9,10 +9,12 @@
              3 r        Ref.Release of reference r (flag swap; if it is the first release, a release actor parks before removeRef)
              4 a        removeRef section of release actor a
              5 g        released() of goroutine g, called from outside the mutex (synchronous path)
-             6 k        section of the k-th parked asynchronous released()
+             6 k g      section of the k-th parked asynchronous released(); g = the goroutine whose released() it is (filled in by the
+                        harness from the nonce the hook reports; the model refuses the event if g is not that goroutine)
              7 g enter  resolve goroutine g leaves its first gate (enter: it called the resolver; used when both cases were ready)
              8 g rel e [z]  the resolver call on goroutine g returns value g+1 (7 if constValue), a release function iff rel, error e (0 nil, >= 2);
-                        z = 1 (only with e <> 0): the error comes with the EMPTY value 0 (`return zero, rel, err`); z absent = 0
+                        z = 1: the EMPTY value 0 instead - with an error (`return zero, rel, err`) or without (`return zero, rel, nil`:
+                        handle 0, a nil pointer with a cleanup); z absent = 0
              9 g        the store section of goroutine g
              10 k       start a consumer: 0 Wait, 1 WaitWithReleased + the six lines of ResolveWithReleased replicated by the harness, 2 Access,
                         3 Resolve (behaves as Wait; the caller gets ref.Release instead of the reference), 4 ResolveWithReleased itself (behaves as 1)
@@ -85,8 +87,8 @@ Fixpoint nth_parked (l : list async) (k idx : nat) : option nat :=
   | x :: r => if parked x then (match k with O => Some idx | S k' => nth_parked r k' (S idx) end) else nth_parked r k (S idx)
   end.
 
-(* resolver returns the codec accepts: never context.Canceled (1); the empty value only together with an error *)
-Definition res_ok (er z : N) : bool := negb (N.eqb er 1) && (N.eqb z 0 || (N.eqb z 1 && negb (N.eqb er 0))).
+(* resolver returns the codec accepts: never context.Canceled (1); the value of the generation or the empty value *)
+Definition res_ok (er z : N) : bool := negb (N.eqb er 1) && (N.eqb z 0 || N.eqb z 1).
 Definition res_val (const : bool) (g z : N) : nat := if N.eqb z 0 then (if const then 7%nat else S (n2n g)) else 0%nat.
 (* consumer kinds: Resolve is Wait, ResolveWithReleased is WaitWithReleased + the harness's replica *)
 Definition ckind_norm (k : N) : N := match k with 3 => 0 | 4 => 1 | _ => k end.
@@ -121,9 +123,10 @@ Definition hstep (h : hst) (e : list N) : option (hst * list N) :=
     | Some x => if gent x then fin (released_section s (gnonce x)) [] else None
     | None => None
     end
-  | [6; k] =>
+  | [6; k; g] =>
     match nth_parked (asyncs s) (n2n k) 0 with
-    | Some a => fin (async_section s a) []
+    | Some a => if Nat.ltb (n2n g) (length (gs s)) && Nat.eqb (gnonce (getg s (n2n g))) (as_nonce (nth a (asyncs s) {| as_nonce := 0; as_pc := ARan |}))
+                then fin (async_section s a) [] else None
     | None => None
     end
   | [7; g; en] =>
@@ -254,17 +257,18 @@ Record mst := {
   m_ainv : list bool;               (* ... the value of the running invocation was invalidated since the invocation started *)
   m_adec : list (option (N * bool));(* per Access consumer: it decided to return: expected code, decided by a callback result *)
   m_rootc : list N;                 (* root contexts cancelled by their owner *)
-  m_empty : list N;                 (* goroutines whose resolver call returned an error together with the empty value *)
+  m_empty : list N;                 (* goroutines whose resolver call returned the empty value (with or without an error) *)
+  m_emptyok : list N;               (* ... the empty value with a nil error *)
 }.
 
 Definition minit (cfg : list N) : option mst :=
   match cfg with
   | [k] => Some {| m_keep := nz k; m_ctx := 0; m_in := []; m_kind := []; m_raref := []; m_cref := []; m_out := []; m_called := [];
                    m_cur := None; m_ng := 0; m_inval := []; m_ckind := []; m_cret := []; m_const := false; m_gs := [];
-                   m_ccanc := []; m_acb := []; m_acanc := []; m_ainv := []; m_adec := []; m_rootc := []; m_empty := [] |}
+                   m_ccanc := []; m_acb := []; m_acanc := []; m_ainv := []; m_adec := []; m_rootc := []; m_empty := []; m_emptyok := [] |}
   | [k; c] => Some {| m_keep := nz k; m_ctx := 0; m_in := []; m_kind := []; m_raref := []; m_cref := []; m_out := []; m_called := [];
                       m_cur := None; m_ng := 0; m_inval := []; m_ckind := []; m_cret := []; m_const := nz c; m_gs := [];
-                      m_ccanc := []; m_acb := []; m_acanc := []; m_ainv := []; m_adec := []; m_rootc := []; m_empty := [] |}
+                      m_ccanc := []; m_acb := []; m_acanc := []; m_ainv := []; m_adec := []; m_rootc := []; m_empty := []; m_emptyok := [] |}
   | _ => None
   end.
 
@@ -307,23 +311,45 @@ Definition mon1 (m : mst) (e : list N) (p : pobs) : mst * list (nat * nat) :=
   (* ---- release functions ---- *)
   let out1 := match e with [8; g; hr; _] | [8; g; hr; _; _] => if nz hr then (m_out m ++ [g])%list else m_out m | _ => m_out m end in
   let empty' := match e with [8; g; _; _; z] => if nz z then (m_empty m ++ [g])%list else m_empty m | _ => m_empty m end in
+  let emptyok' := match e with [8; g; _; er; z] => if nz z && N.eqb er 0 then (m_emptyok m ++ [g])%list else m_emptyok m | _ => m_emptyok m end in
+  (* the value of generation g as the observers see it *)
+  let vofe (g : N) : N := if mem g empty' then 0 else vof g in
   let newcalls := map (fun x => let '(id, _, _) := x in id) (po_rels p) in
   let called' := (m_called m ++ newcalls)%list in
   let out' := filter (fun g => negb (mem g newcalls)) out1 in
-  (* which generation is stored now *)
+  (* which generation is stored now.  A stored result is recognised in the target containers; the empty value stored without an
+     error leaves no trace there: the store section of the newest goroutine stores its result iff there are a context and a
+     reference (an older goroutine is superseded, and so is the newest one once the context or the last reference went away).
+     The stored result goes away with: a context change, released() of that generation, the removeRef section that drops the last
+     reference (unless keep-unreferenced and no error); otherwise it is checked against the target containers *)
   let cur1 := m_cur m in
   let stored_now :=
     match e with
-    | [9; g] => if N.eqb (po_target p) (vof g) && N.eqb (po_terr p) 0 then Some (g, 0)
+    | [9; g] => if mem g emptyok' then (if Nat.eqb (S (n2n g)) ng && nz ctx' && Nat.ltb 0 nin then Some (g, 0) else None)
+                else if N.eqb (po_target p) (vof g) && N.eqb (po_terr p) 0 then Some (g, 0)
                 else if nz (po_terr p) && negb (match m_cur m with Some (_, e0) => N.eqb e0 (po_terr p) | None => false end) then Some (g, po_terr p)
                 else None
     | _ => None
     end in
+  let removed_last (r : nat) : bool := nth r (m_in m) false && Nat.eqb (cntb (m_in m)) 1 in
+  let cleared :=
+    match m_cur m with
+    | None => false
+    | Some (c, e0) =>
+      match e with
+      | [1; _] => match po_rets p with [u] => nz u | _ => false end
+      | [5; g] | [6; _; g] => N.eqb c g
+      | [4; a] => removed_last (nth (n2n a) (m_raref m) 0%nat) && negb (m_keep m && N.eqb e0 0)
+      | [12; c0] => removed_last (nth (n2n c0) (m_cref m) 0%nat) && negb (m_keep m && N.eqb e0 0)
+      | _ => false
+      end
+    end in
   let cur2 := match stored_now with Some x => Some x | None => cur1 end in
-  let cur' := match cur2 with
-              | Some (g, e0) => if (if N.eqb e0 0 then N.eqb (po_target p) (vof g) && N.eqb (po_terr p) 0 else N.eqb (po_terr p) e0) then cur2 else None
-              | None => None
-              end in
+  let cur' := if cleared then None
+              else match cur2 with
+                   | Some (g, e0) => if (if N.eqb e0 0 then N.eqb (po_target p) (vofe g) && N.eqb (po_terr p) 0 else N.eqb (po_terr p) e0) then cur2 else None
+                   | None => None
+                   end in
   (* ---- C08 ---- *)
   let f8_1 := fails 8 1 (nodupb called') in
   let f8_2 := fails 8 2 (forallb (fun x => let '(id, tg, stale) := x in negb (N.eqb tg (id + 1)) && N.eqb stale 0) (po_rels p)) in
@@ -332,7 +358,7 @@ Definition mon1 (m : mst) (e : list N) (p : pobs) : mst * list (nat * nat) :=
                 match e with
                 | [1; _] => match po_rets p with [u] => nz u | _ => false end
                 | [4; _] | [12; _] => dropped_last
-                | [5; _] | [6; _] => true
+                | [5; _] | [6; _; _] => true
                 | [9; g] => N.eqb id g
                 | _ => false
                 end) newcalls) in
@@ -387,7 +413,7 @@ Definition mon1 (m : mst) (e : list N) (p : pobs) : mst * list (nat * nat) :=
                         end
               end in
   let inval' := map (fun t => let '(iv, hv, k) := t in
-                       iv || (N.eqb k 1 && match lost, hv with Some g, Some v => N.eqb v (g + 1) | _, _ => false end))
+                       iv || (N.eqb k 1 && match lost, hv with Some g, Some v => N.eqb v (vofe g) | _, _ => false end))
                     (zip3 inval1 holds ckind') in
   let f10_3 := fails 10 3 (negb quiet ||
                  forallb (fun t => let '(iv, (_, _, _, _, fired, _)) := t in negb iv || N.eqb fired 1)
@@ -425,7 +451,7 @@ Definition mon1 (m : mst) (e : list N) (p : pobs) : mst * list (nat * nat) :=
       let expected := if mine && ccb then 1 else if fromcb then rc else if nz cur_err then cur_err else 1 in
       let adec' := if decnow then Some (expected, fromcb) else adec in
       let decided' := match adec' with Some _ => true | None => false end in
-      let c4 := fails 10 4 (negb started || match cur' with Some (g, e0) => N.eqb e0 0 && N.eqb v (vof g) | None => false end) in
+      let c4 := fails 10 4 (negb started || match cur' with Some (g, e0) => N.eqb e0 0 && N.eqb v (vofe g) | None => false end) in
       let c5 := fails 10 5 (negb (cbnow && inv') || nz h) in
       let c6 := fails 10 6 (negb (decnow && mine && negb ccb) || negb ainv || nz cur_err) in
       let c6r := fails 10 6 (match adec' with Some (x, true) => negb (N.eqb code 3) || N.eqb v x | _ => true end) in
@@ -443,7 +469,7 @@ Definition mon1 (m : mst) (e : list N) (p : pobs) : mst * list (nat * nat) :=
       m_acb := map (fun j => let '(a, _, _, _, _) := j in a) judged;
       m_acanc := map (fun j => let '(_, a, _, _, _) := j in a) judged;
       m_ainv := map (fun j => let '(_, _, a, _, _) := j in a) judged;
-      m_adec := map (fun j => let '(_, _, _, a, _) := j in a) judged; m_rootc := rootc'; m_empty := empty' |},
+      m_adec := map (fun j => let '(_, _, _, a, _) := j in a) judged; m_rootc := rootc'; m_empty := empty'; m_emptyok := emptyok' |},
    ((if m_const m then [] else all) ++ facc)%list).
 
 Definition mon (m : option mst) (e o : list N) : option mst * list (nat * nat) :=
